@@ -76,6 +76,51 @@ Theorem C07_lookups_inverse : forall is_letter is_digit t, Inv is_letter is_digi
 Proof. exact inv_lookups_inverse. Qed.
 Print Assumptions C07_lookups_inverse.
 
+(* ---------- the tracker's other entry points and options ---------- *)
+(* For every sequence of symbols -- also symbols whose types.Name carries a Path different from its
+   Package (the key is the Path, the alias is made from the Package) -- and of types the tracker's
+   IsInvalidType rejects (their package name is reserved), from a fresh tracker: every tracked key
+   has exactly one alias, path -> alias -> path is the identity, alias -> path -> alias is the
+   identity on every non-empty path, every alias is a legal non-keyword identifier (v2: not the
+   output package's leaf), and a reserved name is nobody's alias. *)
+Theorem C07_invariant_every_operation_sequence : forall is_letter is_digit itoa,
+  Contracts is_letter is_digit itoa ->
+  forall ops v2 local t',
+  run_ops is_letter is_digit itoa (init v2 local) ops = Some t' ->
+  (forall p n, lookup p (p2n t') = Some n -> lookup n (n2p t') = Some p) /\
+  (forall n p, lookup n (n2p t') = Some p -> p <> [] -> lookup p (p2n t') = Some n) /\
+  (forall p n, lookup p (p2n t') = Some n -> valid_alias is_letter is_digit t' n = true) /\
+  lookup [] (p2n t') = None /\
+  NoDup (keys (p2n t')).
+Proof.
+  intros il id it [H1 [H2 [H3 [H4 H5]]]] ops v2 local t' H.
+  exact (inv2_reachable il id it H1 H2 H3 H5 ops _ _ (inv2_init il id v2 local) H).
+Qed.
+Print Assumptions C07_invariant_every_operation_sequence.
+Theorem C07_operations_never_panic : forall is_letter is_digit itoa,
+  (forall a b, itoa a = itoa b -> a = b) -> forall ops t, run_ops is_letter is_digit itoa t ops <> None.
+Proof. intros il id it H ops t. exact (run_ops_never_panics il id it H ops t). Qed.
+Print Assumptions C07_operations_never_panic.
+Theorem C07_operations_keep_aliases : forall is_letter is_digit itoa ops t t' p n,
+  run_ops is_letter is_digit itoa t ops = Some t' -> lookup p (p2n t) = Some n -> lookup p (p2n t') = Some n.
+Proof. intros il id it. exact (ops_alias_stable il id it). Qed.
+Print Assumptions C07_operations_keep_aliases.
+Theorem C07_reserved_name_is_no_alias : forall is_letter is_digit t, Inv2 is_letter is_digit t ->
+  forall n, path_of t n = Some [] -> forall p, lookup p (p2n t) <> Some n.
+Proof. exact inv2_reserved_not_alias. Qed.
+Print Assumptions C07_reserved_name_is_no_alias.
+(* AddSymbol with Path = Package is the operation of the theorems above *)
+Theorem C07_add_symbol_is_the_special_case : forall is_letter is_digit itoa t pkg,
+  add_symbol is_letter is_digit itoa t pkg = add_op is_letter is_digit itoa t (TSym pkg []).
+Proof. intros. reflexivity. Qed.
+Print Assumptions C07_add_symbol_is_the_special_case.
+Example C07_example_ops :
+  match run_ops is_letter_x is_digit_x itoa_dec (init false (s "local/out"))
+          [TSym (s "x/foo") []; TInvalid (s "bar") false; TSym (s "y/bar") []; TSym (s "x/foo") (s "vendor/x/foo")] with
+  | Some t => map (local_name_of t) [s "x/foo"; s "y/bar"; s "vendor/x/foo"] = [s "foo"; s "ybar"; s "xfoo"] /\ path_of t (s "bar") = Some []
+  | None => False end.
+Proof. vm_compute. split; reflexivity. Qed.
+
 (* the instance that is extracted and run against the Go code meets the contracts *)
 Theorem C07_instance_contracts : Contracts is_letter_x is_digit_x itoa_dec.
 Proof.
